@@ -10,6 +10,7 @@ on everything but the dead `default` field), and the quoted-message syntax round
 -/
 import Dippy.Lemmas.Parse
 import Dippy.Lemmas.Escape
+import Dippy.Lemmas.RoundTrip
 
 set_option linter.unusedSimpArgs false
 
@@ -87,6 +88,191 @@ example :
 
 example : parseLine ⟨"/h", fun _ => none⟩ "allow-redirect ~/out/**" = .redirect { decision := .allow, pattern := "/h/out/**" } := by
   decide
+
+/-! ### whole rules round-trip
+
+`RT.renderLine d tokens exact message` is the line a writer produces (the repo has no writer; this
+is the documented syntax): the directive, the pattern tokens joined by single blanks, ` |` when the
+rule is exact, and the message in double quotes with `\` and `"` escaped.  `RT.WfPat` is
+well-formedness of the pattern: at least one token, tokens non-empty and free of whitespace; a
+non-exact pattern does not itself end in `|`; with neither anchor nor message it does not end in `"`.
+The message is arbitrary (any characters, including quotes, backslashes, `#`, `|`, non-ASCII). -/
+
+open RT in
+/-- the writer's line is parsed back into the directive word and the body -/
+theorem line_splits (d : String) (hd : Tok d.toList)
+    (ts : List (List Char)) (ex : Bool) (m : Option (List Char)) (h : WfPat ts ex m) :
+    Py.strip (renderLine d ts ex m) = renderLine d ts ex m
+      ∧ Py.split1 (renderLine d ts ex m) = [d, String.ofList (joinL ts ++ anchorPart ex ++ msgPart m)] := by
+  have hs := lineShape d.toList hd ts ex m h
+  unfold renderLine
+  exact ⟨strip_line _ _ hs, by rw [split1_line _ _ hs]; simp⟩
+
+section
+open RT
+
+/-- closes `parseLine e (renderLine "<directive>" …) = …` for a concrete directive word -/
+local macro "rt_close" d:term "," ts:term "," ex:term "," m:term "," h:term : tactic => `(tactic| (
+  have hs := lineShape ($d : String).toList (by refine ⟨by decide, by decide⟩) $ts $ex $m $h
+  have hb := body_shape $ts $ex $m ($h).ne ($h).toks
+  unfold parseLine renderLine
+  simp only [strip_line _ _ hs, split1_line _ _ hs, strip_body _ hb.1 hb.2]
+  have hlow : String.ofList (List.map Char.toLower (String.ofList ($d : String).toList).toList) = $d := by decide
+  have hne : (String.ofList (($d : String).toList ++ ' ' :: (joinL $ts ++ anchorPart $ex ++ msgPart $m))).isEmpty = false := by
+    simp
+  have hhash : Py.startsWith (String.ofList (($d : String).toList ++ ' ' :: (joinL $ts ++ anchorPart $ex ++ msgPart $m))) "#" = false := by
+    simp [Py.startsWith, List.isPrefixOf]
+  simp only [hlow, hne, hhash, body_nonempty $ts $ex $m $h, extract_body $ts $ex $m $h, anchor_body $ts $ex $m $h,
+    tildes_join _ $ts ($h).toks]
+  simp))
+
+/-- **`ask` / `deny` rules round-trip**: every well-formed pattern, exact or not, with or without a
+    message, is read back as the rule that was written (tilde tokens expanded, as at parse time) -/
+theorem roundtrip_ask (ts : List (List Char)) (ex : Bool) (m : Option (List Char)) (h : WfPat ts ex m) :
+    parseLine e (renderLine "ask" ts ex m)
+      = .rule { decision := .ask, pattern := Py.joinSpace ((ts.map String.ofList).map (expandHomeOnly e.pathEnv)),
+                message := m.map String.ofList, exact := ex } := by
+  rt_close "ask", ts, ex, m, h
+
+theorem roundtrip_deny (ts : List (List Char)) (ex : Bool) (m : Option (List Char)) (h : WfPat ts ex m) :
+    parseLine e (renderLine "deny" ts ex m)
+      = .rule { decision := .deny, pattern := Py.joinSpace ((ts.map String.ofList).map (expandHomeOnly e.pathEnv)),
+                message := m.map String.ofList, exact := ex } := by
+  rt_close "deny", ts, ex, m, h
+
+/-- `allow` rules (no message) -/
+theorem roundtrip_allow (ts : List (List Char)) (ex : Bool) (h : WfPat ts ex none) :
+    parseLine e (renderLine "allow" ts ex none)
+      = .rule { decision := .allow, pattern := Py.joinSpace ((ts.map String.ofList).map (expandHomeOnly e.pathEnv)),
+                exact := ex } := by
+  have ha := anchor_body_none ts ex h
+  have hs := lineShape "allow".toList (by refine ⟨by decide, by decide⟩) ts ex none h
+  have hb := body_shape ts ex none h.ne h.toks
+  unfold parseLine renderLine
+  simp only [strip_line _ _ hs, split1_line _ _ hs, strip_body _ hb.1 hb.2]
+  have hlow : String.ofList (List.map Char.toLower (String.ofList "allow".toList).toList) = "allow" := by decide
+  have hne : (String.ofList ("allow".toList ++ ' ' :: (joinL ts ++ anchorPart ex ++ msgPart none))).isEmpty = false := by
+    simp
+  have hhash : Py.startsWith (String.ofList ("allow".toList ++ ' ' :: (joinL ts ++ anchorPart ex ++ msgPart none))) "#" = false := by
+    simp [Py.startsWith, List.isPrefixOf]
+  simp only [hlow, hne, hhash, body_nonempty ts ex none h, ha, tildes_join _ ts h.toks]
+  simp
+
+/-- redirect rules: the pattern is the whole text before the message (no anchor syntax) -/
+theorem roundtrip_allow_redirect (ts : List (List Char)) (h : WfPat ts false none) :
+    parseLine e (renderLine "allow-redirect" ts false none)
+      = .redirect { decision := .allow, pattern := Py.joinSpace ((ts.map String.ofList).map (expandHomeOnly e.pathEnv)) } := by
+  have hj : joinL ts ++ anchorPart false ++ msgPart none = joinL ts := by simp [anchorPart, msgPart]
+  have hs := lineShape "allow-redirect".toList (by refine ⟨by decide, by decide⟩) ts false none h
+  have hb := body_shape ts false none h.ne h.toks
+  unfold parseLine renderLine
+  simp only [strip_line _ _ hs, split1_line _ _ hs, strip_body _ hb.1 hb.2]
+  have hlow : String.ofList (List.map Char.toLower (String.ofList "allow-redirect".toList).toList) = "allow-redirect" := by decide
+  have hne : (String.ofList ("allow-redirect".toList ++ ' ' :: (joinL ts ++ anchorPart false ++ msgPart none))).isEmpty = false := by
+    simp
+  have hhash : Py.startsWith (String.ofList ("allow-redirect".toList ++ ' ' :: (joinL ts ++ anchorPart false ++ msgPart none))) "#" = false := by
+    simp [Py.startsWith, List.isPrefixOf]
+  simp only [hlow, hne, hhash, body_nonempty ts false none h]
+  simp only [hj, tildes_join _ ts h.toks]
+  simp
+
+theorem roundtrip_ask_redirect (ts : List (List Char)) (m : Option (List Char)) (h : WfPat ts false m) :
+    parseLine e (renderLine "ask-redirect" ts false m)
+      = .redirect { decision := .ask, pattern := Py.joinSpace ((ts.map String.ofList).map (expandHomeOnly e.pathEnv)),
+                    message := m.map String.ofList } := by
+  have hx := extract_body ts false m h
+  simp only [anchorPart, Bool.false_eq_true, ↓reduceIte, List.append_nil] at hx
+  rt_close "ask-redirect", ts, false, m, h
+  simp [anchorPart, hx, tildes_join _ ts h.toks]
+
+theorem roundtrip_deny_redirect (ts : List (List Char)) (m : Option (List Char)) (h : WfPat ts false m) :
+    parseLine e (renderLine "deny-redirect" ts false m)
+      = .redirect { decision := .deny, pattern := Py.joinSpace ((ts.map String.ofList).map (expandHomeOnly e.pathEnv)),
+                    message := m.map String.ofList } := by
+  have hx := extract_body ts false m h
+  simp only [anchorPart, Bool.false_eq_true, ↓reduceIte, List.append_nil] at hx
+  rt_close "deny-redirect", ts, false, m, h
+  simp [anchorPart, hx, tildes_join _ ts h.toks]
+
+/-- `after` rules: the pattern text is kept as written -/
+theorem roundtrip_after (ts : List (List Char)) (m : Option (List Char)) (h : WfPat ts false m) :
+    parseLine e (renderLine "after" ts false m)
+      = .after { pattern := String.ofList (joinL ts), message := m.map String.ofList } := by
+  have hx := extract_body ts false m h
+  simp only [anchorPart, Bool.false_eq_true, ↓reduceIte, List.append_nil] at hx
+  rt_close "after", ts, false, m, h
+  simp [anchorPart, hx]
+
+/-- the MCP family -/
+theorem roundtrip_allow_mcp (ts : List (List Char)) (h : WfPat ts false none) :
+    parseLine e (renderLine "allow-mcp" ts false none)
+      = .mcp { decision := .allow, pattern := String.ofList (joinL ts) } := by
+  have hj : joinL ts ++ anchorPart false ++ msgPart none = joinL ts := by simp [anchorPart, msgPart]
+  have hs := lineShape "allow-mcp".toList (by refine ⟨by decide, by decide⟩) ts false none h
+  have hb := body_shape ts false none h.ne h.toks
+  unfold parseLine renderLine
+  simp only [strip_line _ _ hs, split1_line _ _ hs, strip_body _ hb.1 hb.2]
+  have hlow : String.ofList (List.map Char.toLower (String.ofList "allow-mcp".toList).toList) = "allow-mcp" := by decide
+  have hne : (String.ofList ("allow-mcp".toList ++ ' ' :: (joinL ts ++ anchorPart false ++ msgPart none))).isEmpty = false := by
+    simp
+  have hhash : Py.startsWith (String.ofList ("allow-mcp".toList ++ ' ' :: (joinL ts ++ anchorPart false ++ msgPart none))) "#" = false := by
+    simp [Py.startsWith, List.isPrefixOf]
+  simp only [hlow, hne, hhash, body_nonempty ts false none h]
+  simp only [hj]
+  simp
+
+theorem roundtrip_ask_mcp (ts : List (List Char)) (m : Option (List Char)) (h : WfPat ts false m) :
+    parseLine e (renderLine "ask-mcp" ts false m)
+      = .mcp { decision := .ask, pattern := String.ofList (joinL ts), message := m.map String.ofList } := by
+  have hx := extract_body ts false m h
+  simp only [anchorPart, Bool.false_eq_true, ↓reduceIte, List.append_nil] at hx
+  rt_close "ask-mcp", ts, false, m, h
+  simp [anchorPart, hx]
+
+theorem roundtrip_deny_mcp (ts : List (List Char)) (m : Option (List Char)) (h : WfPat ts false m) :
+    parseLine e (renderLine "deny-mcp" ts false m)
+      = .mcp { decision := .deny, pattern := String.ofList (joinL ts), message := m.map String.ofList } := by
+  have hx := extract_body ts false m h
+  simp only [anchorPart, Bool.false_eq_true, ↓reduceIte, List.append_nil] at hx
+  rt_close "deny-mcp", ts, false, m, h
+  simp [anchorPart, hx]
+
+theorem roundtrip_after_mcp (ts : List (List Char)) (m : Option (List Char)) (h : WfPat ts false m) :
+    parseLine e (renderLine "after-mcp" ts false m)
+      = .afterMcp { pattern := String.ofList (joinL ts), message := m.map String.ofList } := by
+  have hx := extract_body ts false m h
+  simp only [anchorPart, Bool.false_eq_true, ↓reduceIte, List.append_nil] at hx
+  rt_close "after-mcp", ts, false, m, h
+  simp [anchorPart, hx]
+
+/-- **unchanged**: when no token starts with `~` (nothing to expand), the pattern read back is
+    character for character the pattern written -/
+theorem pattern_unchanged (ts : List (List Char))
+    (hno : ∀ t ∈ ts, Py.startsWith (String.ofList t) "~" = false) :
+    Py.joinSpace ((ts.map String.ofList).map (expandHomeOnly e.pathEnv)) = String.ofList (joinL ts) := by
+  rw [← joinSpace_ofList]
+  congr 1
+  simp only [List.map_map]
+  apply List.map_congr_left
+  intro t ht
+  exact expandHomeOnly_id _ _ (hno t ht)
+
+/-- so a `deny` rule without tilde tokens survives write-then-parse unchanged, whatever its message -/
+theorem roundtrip_deny_unchanged (ts : List (List Char)) (ex : Bool) (m : Option (List Char)) (h : WfPat ts ex m)
+    (hno : ∀ t ∈ ts, Py.startsWith (String.ofList t) "~" = false) :
+    parseLine e (renderLine "deny" ts ex m)
+      = .rule { decision := .deny, pattern := String.ofList (joinL ts), message := m.map String.ofList, exact := ex } := by
+  rw [roundtrip_deny e ts ex m h, pattern_unchanged e ts hno]
+
+/-- non-vacuity: a well-formed pattern with glob characters, an anchor and a message full of
+    quotes, backslashes, `#` and `|` -/
+example : WfPat ["rm".toList, "-rf".toList, "*".toList] true (some "say \"no\" \\ # | ok".toList) := by
+  refine ⟨by decide, ?_, (fun h => by cases h), (fun h => by cases h)⟩
+  intro t ht
+  simp only [List.mem_cons, List.not_mem_nil, or_false] at ht
+  rcases ht with rfl | rfl | rfl <;> exact ⟨by decide, by decide⟩
+
+end
 
 /-- malformed lines are `skip` -/
 example : parseLine ⟨"/h", fun _ => none⟩ "deny \"message only\"" = .skip := by decide
